@@ -2441,9 +2441,11 @@ impl Fs {
     /// List entries in a directory.
     /// Returns paths of files, directories, and symlinks that are direct children of the given path.
     pub(crate) fn dir_entries(&self, path: &Path) -> Vec<PathBuf> {
-        use std::collections::HashSet;
+        // An ordered set: the listing must not depend on a per-process hasher
+        // seed, or two runs with the same seed list a directory differently.
+        use std::collections::BTreeSet;
 
-        let mut entries: HashSet<PathBuf> = HashSet::new();
+        let mut entries: BTreeSet<PathBuf> = BTreeSet::new();
 
         // Add persisted files in this directory
         for file_path in self.persisted_files.keys() {
